@@ -367,7 +367,13 @@ fn explore_annealer(st: &mut Stats, n: usize, edges: &[(usize, usize)], iteratio
             let mut init = a.init_decomp().clone();
             let w0 = init.rankwidth(&gg);
             let out = a.run();
-            (w0, out)
+            // re-use of the annealer: the starting tree is still there, and a further run with no iterations left
+            // (it draws nothing) returns it
+            let init_after = format!("{:?}", a.init_decomp().nodes);
+            a.set_iterations(0);
+            let again = a.run();
+            let reuse_ok = init_after == format!("{:?}", init.nodes) && format!("{:?}", again.nodes) == init_after;
+            (w0, out, reuse_ok, init_after, format!("{:?}", again.nodes))
         },
         |e| results.push((e.script, e.end)),
     );
@@ -379,7 +385,8 @@ fn explore_annealer(st: &mut Stats, n: usize, edges: &[(usize, usize)], iteratio
         match end {
             RunEnd::DrawLimit => st.inc("pruned_retry_rounds"),
             RunEnd::Panic(p) => st.violation(Violation { sig: format!("annealer|panic|{}|{}", cls, site_of(&p)), detail: p, witness: w() }),
-            RunEnd::Done((w0, out)) => match analyse(&out, n, &es) {
+            RunEnd::Done((_, _, false, init_after, again)) => st.violation(Violation { sig: format!("annealer|re-use|{}", cls), detail: format!("after run(): init_decomp() = {}, a further run with 0 iterations returned {}", init_after, again), witness: w() }),
+            RunEnd::Done((w0, out, _, _, _)) => match analyse(&out, n, &es) {
                 Err(e) => st.violation(Violation { sig: format!("annealer|invalid-result|{}", cls), detail: e, witness: w() }),
                 Ok((width, _, _)) => {
                     if width > w0 {
